@@ -373,8 +373,68 @@ fn run_exception_subsets(ctx: &Ctx, lg_k: u8, max: usize) {
     ctx.count(&format!("exception-subset family lg_k={lg_k}: coupons offered (subsets of size 4..={max}, 2 orders, 2 bases)"), runs);
 }
 
+/// Large coupon sets (tables of 2^14 slots and more exist only for lg_k >= 17): fill the set to
+/// just below the promotion with coupons that collide in their home slots, full oracle at
+/// every table growth, then offer EVERY coupon again (each must be found where the growth
+/// put it: nothing may change), then promote.
+fn run_big_sets(ctx: &Ctx, lg_k: u8) {
+    let n = 3 * (1u32 << (lg_k - 3)) / 4;
+    let cs: Vec<u32> = (0..n).map(|i| coupon((i % 4096) | ((i / 4096) << 20) | ((i % 7) << 14), 1 + (i % 60) as u8)).collect();
+    let mut t = Trio::new(lg_k);
+    let mut offered = 0u64;
+    let mut dead = false;
+    for (i, &c) in cs.iter().enumerate() {
+        let vs = t.offer_light(c);
+        offered += 1;
+        let at_growth = (i + 1).is_power_of_two() || (4 * (i + 1)) % 3 == 0 && ((4 * (i + 1)) / 3).is_power_of_two() || i + 1 == cs.len();
+        let vs = if vs.is_empty() && at_growth { t.check_full() } else { vs };
+        if !vs.is_empty() {
+            hllm::report(ctx, vs, lg_k, &[], &cs[..=i]);
+            dead = true;
+            break;
+        }
+    }
+    if !dead {
+        let before: Vec<_> = t.s.iter().map(hllm::obs_est).collect();
+        for (i, &c) in cs.iter().enumerate() {
+            let vs = t.offer_light(c);
+            offered += 1;
+            if !vs.is_empty() {
+                let mut ops = cs.clone();
+                ops.extend_from_slice(&cs[..=i]);
+                hllm::report(ctx, vs, lg_k, &[], &ops);
+                dead = true;
+                break;
+            }
+        }
+        if !dead {
+            let mut vs = t.check_full();
+            if t.s.iter().map(hllm::obs_est).collect::<Vec<_>>() != before {
+                vs.push(("hll.duplicate_changes_state".into(), format!("lg_k={lg_k}: re-offering the {n} stored coupons of a set changed the estimates")));
+            }
+            // one more distinct coupon promotes to the array
+            if vs.is_empty() {
+                vs = t.offer_light(coupon(1 << 25, 5));
+                offered += 1;
+                if vs.is_empty() {
+                    vs = t.check_full();
+                }
+            }
+            if !vs.is_empty() {
+                let mut ops = cs.clone();
+                ops.extend_from_slice(&cs);
+                hllm::report(ctx, vs, lg_k, &[], &ops);
+            }
+        }
+    }
+    ctx.add_states(offered);
+    ctx.add_transitions(offered);
+    ctx.count(&format!("big-set family lg_k={lg_k}: coupons offered (fill to the promotion size, re-offer all, promote)"), offered);
+}
+
 pub fn explore(ctx: &Ctx, obs: &Observer) {
     let tier = ctx.tier;
+    tier.pick(vec![17u8, 19], vec![17, 18, 19, 20, 21]).par_iter().for_each(|&lg_k| run_big_sets(ctx, lg_k));
     for (lg_k, max) in tier.pick(vec![(4u8, 6usize), (5, 4)], vec![(4, 9), (5, 5), (6, 4)]) {
         run_exception_subsets(ctx, lg_k, max);
     }
